@@ -46,6 +46,10 @@ def candidates(rng, n):
     cands.append(enum(did, [variant("Set", "named", [field("u8", "members")], ts="set{{}}"), variant("Unit", ts="{{x}}"),
                             variant("Tup", "tuple", [field("u8")], ser=["a", "}}b{{"])]))
     did += 1
+    cands.append(enum(did, [variant("Before"), variant("Marked", aci=1), variant("Mb"), variant("MB"), variant("Empty", ser=[""])]))
+    did += 1
+    cands.append(enum(did, [variant("Mb"), variant("MB"), variant("Marked", aci=1), variant("Nothing", "tuple", [field("u8")], ser=[""])], style="none"))
+    did += 1
     for k in range(n):
         cands.append(SC.names_def(rng, did, allow_prefix=False))
         did += 1
